@@ -230,6 +230,16 @@ func (x *Exec) setupEntry() (*State, error) {
 		for _, r := range reqs {
 			st.assume(r)
 		}
+		// configurations that name an entry expression: this run is the case expr == value
+		for _, cs := range ct.Configs {
+			if cs.Alias != nil {
+				if v, ok := x.cfgVals[cs.Name]; ok {
+					eq := x.b.Eq(x.evalInt(ctx, cs.Alias), x.b.Int(v))
+					st.assume(eq)
+					reqs = append(reqs, eq)
+				}
+			}
+		}
 		x.userAsserts(st, fr, callName{"@entry", 1}, false)
 		// bounds stated by requires hold on every path: let the simplifier use them from now on
 		// (the solver has the facts themselves in the path condition)
